@@ -1,0 +1,14 @@
+//go:build !verif
+
+package server
+
+import "net/http"
+
+// Verification hooks (see simhook_verif.go). Without the "verif" build tag
+// these are empty and inlined away.
+
+func simYield(point string, arg any) {}
+
+func simNote(point string, arg any) {}
+
+func simInstrumentProxy(handler http.Handler) {}
